@@ -98,7 +98,7 @@ class Peer(object):
                 self.react(q)
             return
         self.sent_names.append(p.name)
-        if p.name == 'CONNECT' and self.cc:
+        if p.name == 'CONNECT' and (self.cc is True or (self.cc and p.dsap in self.cc)):      # cc may be a set of addresses
             ssap = 17 if p.dsap == 1 else p.dsap
             self.pending.append(pdu.ConnectionComplete(p.ssap, ssap, miu=128, rw=1))
         elif p.name == 'SNL' and self.snl:
@@ -136,7 +136,9 @@ class Peer(object):
         for q in self.push.pop(k, []):
             self.pending.append(q)
         if self.pending:
-            return pdu.encode(self.pending.pop(0))
+            q = self.pending.pop(0)
+            # raw octets are sent as they are (crafted PDUs: reserved types / field values, malformed content)
+            return bytes(q) if isinstance(q, (bytes, bytearray)) else pdu.encode(q)
         return pdu.encode(pdu.Symmetry())
 
 
